@@ -172,6 +172,9 @@ func render(v interface{}) string {
 // Join waits for every goroutine started by the harness (engine only; natively use a WaitGroup as well).
 func Join() {}
 
+// LiveGoroutines is the number of harness-started goroutines that have not finished (engine only).
+func LiveGoroutines() int { return 0 }
+
 // Yield is an explicit scheduling point (engine only).
 func Yield() {}
 
